@@ -47,20 +47,12 @@ def run_one(entry, props, tier):
     try:
         ov = os.path.join(tmp, 'overlay.json')
         json.dump(files, open(ov, 'w'))
-        for p in props:
-            r = subprocess.run([BIN, 'check', '-prop', p, '-tier', tier, '-overlay', ov, '-outdir', tmp], capture_output=True, text=True)
-            fails = []
-            if r.returncode == 1:
-                try:
-                    rep = json.load(open(os.path.join(tmp, 'reports', f'{p}.{tier}.json')))
-                    fails = sorted({o['rule'] for o in rep.get('violations') or []})
-                    if rep.get('floor_failures'):
-                        fails.append('FLOOR')
-                except Exception as ex:
-                    fails = ['?']
-            elif r.returncode != 0:
-                fails = ['EXIT%d' % r.returncode + ':' + (r.stderr.strip().splitlines() or [''])[-1][:120]]
-            res[p] = fails
+        r = subprocess.run([BIN, 'check', '-prop', ','.join(props) + ',', '-tier', tier, '-overlay', ov, '-outdir', tmp], capture_output=True, text=True)
+        try:
+            line = [l for l in r.stdout.splitlines() if l.startswith('{')][-1]
+            res = {k: v for k, v in json.loads(line).items() if k}
+        except Exception as ex:
+            res = {p: ['EXIT%d:%s' % (r.returncode, (r.stderr.strip().splitlines() or [''])[-1][:160])] for p in props}
     finally:
         shutil.rmtree(tmp, ignore_errors=True)
     return entry['id'], res
